@@ -1,13 +1,15 @@
 import Qats.Model.Dist
 import Qats.Lemmas.RealOpsSimp
+import Qats.Lemmas.WbOps
 /-!
 Bridging lemmas for the distribution formulas (C15): the generated `Qats.Gen.wb_*`, `gu_*`, `gm_*`, `ecdf_*` at
 `α := ℝ` in ordinary Mathlib notation.  These are the *only* lemmas whose proofs look at the syntactic shape of
 these generated formulas; every other lemma of `Dist*.lean` is proved from the right-hand sides stated here.
 Each proof is "unfold, normalise literals, normalise ring structure".
 
-The generic `TranscOps ℝ` simp lemmas are in `RealOpsSimp.lean`; the Gumbel-from-Weibull formulas (`w2g_*`, `wfw_*`,
-C17) are restated in `W2GOps.lean`.
+The generic `TranscOps ℝ` simp lemmas and the `dist_norm` tactic are in `RealOpsSimp.lean`; `wb_pdf_eq` and
+`wb_invcdf_eq` (used by C15 and by C17) are in `WbOps.lean`; the Gumbel-from-Weibull formulas (`w2g_*`, `wfw_*`, C17)
+are restated in `W2GOps.lean`.
 -/
 namespace Qats.Dist
 open Qats Qats.Gen
@@ -18,25 +20,11 @@ set_option linter.unusedTactic false
 set_option linter.unreachableTactic false
 set_option linter.unnecessarySeqFocus false
 
-/-- Closes a goal `f a₁ … = g b₁ …` obtained after unfolding a generated formula: literals are normalised, then
-the two sides are compared up to ring normalisation (also under `^`, `exp`, `log`, `Gamma`). -/
-macro "dist_norm" : tactic =>
-  `(tactic| ((try norm_num1); first | rfl | ring1 | (ring_nf; done) | (congr 1 <;> ring_nf; done)))
-
 /-! ### Weibull -/
 
 theorem wb_cdf_eq (loc scale shape x : ℝ) :
     wb_cdf loc scale shape x = 1 - Real.exp (-((x - loc) / scale) ^ shape) := by
   simp only [wb_cdf, exp_real, rpow_real] <;> dist_norm
-
-theorem wb_pdf_eq (loc scale shape x : ℝ) :
-    wb_pdf loc scale shape x =
-      shape / scale * ((x - loc) / scale) ^ (shape - 1) * Real.exp (-((x - loc) / scale) ^ shape) := by
-  simp only [wb_pdf, exp_real, rpow_real] <;> dist_norm
-
-theorem wb_invcdf_eq (loc p scale shape : ℝ) :
-    wb_invcdf loc p scale shape = loc + scale * (-Real.log (1 - p)) ^ (1 / shape) := by
-  simp only [wb_invcdf, log_real, rpow_real] <;> dist_norm
 
 theorem wb_mean_eq (loc scale shape : ℝ) :
     wb_mean loc scale shape = loc + scale * Real.Gamma (1 + 1 / shape) := by
